@@ -109,13 +109,15 @@ pub(super) async fn sync(
                 base_version_id = new_version_id;
                 local_ops.drain(..batch_len);
 
-                // make a snapshot if the server indicates it is urgent enough
+                // make a snapshot if the server indicates it is urgent enough, but only once
+                // nothing is left to send: until then the local tasks contain changes that are
+                // not part of the new version
                 let base_urgency = if avoid_snapshots {
                     SnapshotUrgency::High
                 } else {
                     SnapshotUrgency::Low
                 };
-                if snapshot_urgency >= base_urgency {
+                if local_ops.is_empty() && snapshot_urgency >= base_urgency {
                     let snapshot = snapshot::make_snapshot(txn).await?;
                     server.add_snapshot(new_version_id, snapshot).await?;
                 }
